@@ -109,6 +109,11 @@ def cases(tier, seed):
                     # the same while the local user keeps handing over outgoing messages
                     yield dict(code=0x0001, dsize=70, maxlen=46, comp='seeded', mode=mode,
                                state=st, seed=seed, pcid=pcid, duplex=True)
+    for i in range(60 if tier == 'quick' else 2500):
+        yield dict(behind_ac=True, k=rnd.choice([1, 1, 2, 5]), dsize=rnd.choice([60, 200, 600]),
+                   maxlen=rnd.choice([40, 64, 128]), gap=rnd.choice([0.0, 0.05, 0.4]),
+                   stall_user=rnd.choice([0, 0, 20, 60]), code=1, mode='mem', state='Sta6',
+                   seed=seed * 100129 + i)
     n = 800 if tier == 'quick' else 40000
     for i in range(n):
         code, has_data = rnd.choice(shapes)
@@ -129,7 +134,97 @@ def cases(tier, seed):
                    consumer=rnd.random() < 0.3)
 
 
+def _behind_ac(case):
+    """Requesting side, real association layer: the peer puts the first k PDUs of a fragmented
+    message into the same write as its A-ASSOCIATE-AC, the rest follows later.  The provider
+    thread starts reassembling before the association thread has finished the negotiation."""
+    from pynetdicom2 import applicationentity, sopclass
+    from ..world import SimWorld
+    from .. import peers
+    world = SimWorld('c07/bac/%s' % case['seed'])
+    viol = []
+    addr = ('peerhost', 104)
+
+    def v(rule, detail):
+        viol.append({'sig': 'C07 %s mode=behind-ac' % rule,
+                     'detail': '%s\ncase %r' % (detail, case)})
+    try:
+        rnd = random.Random('c07b/%s' % case['seed'])
+        data = _dataset(case['dsize'], rc.IMPLICIT_LE)
+        fields = {0x0002: CT, 0x0100: 0x0001, 0x0110: 77, 0x0700: 0, 0x0800: 1,
+                  0x1000: '1.2.826.0.1.7.%d' % (case['seed'] % 10 ** 6)}
+        cmd = rc.enc_command(fields)
+        pdvs = rc.fragment_message(1, cmd, data, case['maxlen'])
+        pdus = [rc.enc_pdata([x]) for x in pdvs]
+        k = min(case['k'], len(pdus) - 1)
+
+        class Acc(peers.ScriptedAcceptor):
+            def run(self):
+                p = self.read_pdu()
+                if p is None or p == 'timeout' or p['kind'] != 'A-ASSOCIATE-RQ':
+                    self.close()
+                    return
+                self.rq = p
+                res = self.accept(p['contexts'])
+                ac = rc.enc_assoc_ac(called=p['called'], calling=p['calling'], results=res,
+                                     max_length=16384)
+                self.send(ac + b''.join(pdus[:k]))          # one write
+                self.sim.sleep(case['gap'])
+                for x in pdus[k:]:
+                    self.send(x)
+                self.serve()
+        world.serve_peer(addr, lambda sock: Acc(world.sim, sock))
+        cli = world.make_ae(applicationentity.ClientAE, 'CLI', [rc.IMPLICIT_LE], 16384)
+        cli.timeout = 30
+        cli.add_scu(sopclass.storage_scu, [CT])
+        out = {}
+
+        def user():
+            try:
+                with cli.request_association({'aet': 'SRV', 'address': addr[0],
+                                              'port': addr[1]}) as assoc:
+                    out['msg'] = assoc.receive()
+            except Exception as e:  # pylint: disable=broad-except
+                out['exc'] = e
+        world.spawn(user, 'user')
+        if case.get('stall_user'):
+            # the association thread is slow to come back from the negotiation
+            from .. import sched
+            world.sim.actors.append(sched.Trigger(
+                'stall-user', lambda: world.sim.steps >= case['stall_user'],
+                lambda: [world.sim.stall(t_, 0.3) for t_ in world.sim.tasks
+                         if t_.name == 'user' and not t_.done]))
+        world.run(tmax=300)
+        world.drain(2.0)
+        if 'msg' not in out:
+            v('message-behind-the-association-reply-not-delivered',
+              '%d of %d PDUs were in the same write as the A-ASSOCIATE-AC; user got %r' % (
+                  k, len(pdus), out.get('exc')))
+        else:
+            msg, pcid = out['msg']
+            got = {}
+            for el in msg.command_set:
+                if int(el.tag) & 0xffff:
+                    got[int(el.tag) & 0xffff] = el.value
+            if pcid != 1 or type(msg).__name__ != 'CStoreRQMessage':
+                v('wrong-message-class-or-context', '%s on %r' % (type(msg).__name__, pcid))
+            elif str(got.get(0x1000)) != fields[0x1000] or got.get(0x0110) != 77:
+                v('command-set-differs', repr(got))
+            elif bytes(msg.data_set or b'') != data:
+                v('data-bytes-differ', 'got %d bytes, sent %d' % (len(msg.data_set or b''),
+                                                                  len(data)))
+        sim = world.sim
+        return {'violations': viol, 'stats': dict(sim.stats), 'digest': sim.digest.hexdigest(),
+                'sched_sig': 'bac/%s/%s/%s' % (case['k'], case['dsize'], case['maxlen']),
+                'steps': sim.steps, 'vsecs': sim.now - 1000.0, 'nontrivial': True,
+                'sets': {}, 'sample': {'case': case}}
+    finally:
+        world.close()
+
+
 def run_case(case):
+    if case.get('behind_ac'):
+        return _behind_ac(case)
     rnd = random.Random('c07r/%s/%s' % (case['seed'], case['code']))
     code = case['code']
     has_data = case['dsize'] > 0
